@@ -17,6 +17,8 @@ use std::sync::Arc;
 pub struct NodeCtl {
 	pub chain: Arc<Chain>,
 	pub down: AtomicBool,
+	/// partial outage: only the UTXO query (get_outputs_from_node) fails
+	pub fail_outputs: AtomicBool,
 	pub pool: Mutex<Vec<Transaction>>,
 	pub calls: AtomicU64,
 	/// cap on the number of leaves returned per get_outputs_by_pmmr_index call
@@ -44,6 +46,7 @@ impl NodeCtl {
 		Arc::new(NodeCtl {
 			chain: Arc::new(chain),
 			down: AtomicBool::new(false),
+			fail_outputs: AtomicBool::new(false),
 			pool: Mutex::new(vec![]),
 			calls: AtomicU64::new(0),
 			pmmr_batch: AtomicU64::new(u64::MAX),
@@ -133,6 +136,9 @@ impl NodeClient for ChainNode {
 		wallet_outputs: Vec<pedersen::Commitment>,
 	) -> Result<HashMap<pedersen::Commitment, (String, u64, u64)>, Error> {
 		self.ctl.check()?;
+		if self.ctl.fail_outputs.load(Ordering::Relaxed) {
+			return Err(Error::ClientCallback("node: output query timed out".into()));
+		}
 		let chain = &self.ctl.chain;
 		let mut res = HashMap::new();
 		for commit in wallet_outputs {
